@@ -2,6 +2,7 @@ mod ast;
 mod diff;
 mod enumerate;
 mod gen;
+mod mutate;
 mod obs;
 mod print;
 mod refsem;
